@@ -270,8 +270,6 @@ func checkDateString(env *Env, s string, year, m, d int, sameSep bool, o *Outcom
 	if groups, ok := gsSubmatch("datePattern", s); ok {
 		gsCompare(env, o, "date", impl, in, append([]string{"gs.date", hx(s)}, groups...)...)
 		gsCheckSubmatch(env, o, "datePattern", "rx_klog_datePattern", 3, s, in)
-	} else {
-		addF(o, Finding{Kind: "K", What: "K.gosrc.date: no package-level regexp variable datePattern in the sources", Input: in})
 	}
 	valid := sameSep && m >= 1 && m <= 12 && d >= 1 && d <= gDaysIn(year, m)
 	if valid != (err == nil) {
